@@ -67,9 +67,25 @@ Definition c08_host_triplet_case (u spec got : text) : bool :=
      end
   && text_eqb (recompose (mkFive (f_scheme g) (f_auth s) (f_path g) (f_query g) (f_frag g))) spec.
 
+(* D7d: an essential "." kept in front of a "x:y" segment stays after that segment was cancelled:
+        "./b:c/../x" gives "./x" (and "x" when normalised again) *)
+Definition c08_rel_stale_dot (u spec got : text) : bool :=
+  let s := five_of_text spec in let g := five_of_text got in
+  rel_path_ref (five_of_text u) && same_but_path s g
+  && negb (starts_with [46; 47] (f_path s)) && text_eqb (f_path g) (46 :: 47 :: f_path s).
+(* D7e: the kept "." is then cancelled by a following ".." as if it were a name:
+        "./b:c/../../x" gives "x" instead of "../x" *)
+Definition c08_rel_dot_eaten (u spec got : text) : bool :=
+  let s := five_of_text spec in let g := five_of_text got in
+  rel_path_ref (five_of_text u) && same_but_path s g
+  && (text_eqb (f_path s) (46 :: 46 :: 47 :: f_path g)
+      || (text_eqb (f_path s) [46; 46] && match f_path g with [] => true | _ => false end)).
+
 (* D14: the normal form of a host-less absolute path begins with "//" and is written without guard *)
 Definition c08_shape (u spec got : text) : N :=
   if c06_unguarded_dslash spec got then 14
+  else if c08_rel_stale_dot u spec got then 74
+  else if c08_rel_dot_eaten u spec got then 75
   else if c08_rel_cancels u spec got then 71
   else if c08_rel_exposes_empty u spec got then 73
   else if c08_rel_exposes_colon u spec got then 72
